@@ -110,7 +110,11 @@ func (l *Loaded) bind() []string {
 			unbound = append(unbound, sp.Pkg.Name()+"."+c.Key())
 			continue
 		}
-		l.bound[fn] = c
+		if prev := l.bound[fn]; prev != nil {
+			mergeContracts(prev, c)
+		} else {
+			l.bound[fn] = c
+		}
 		l.byKey[funcKey(fn)] = fn
 	}
 	return unbound
@@ -333,3 +337,37 @@ func cmdDump(args []string) {
 	}
 }
 
+
+// mergeContracts: several contract blocks for one function (one per property) are merged; the
+// postconditions of each block stay attached to that block's properties.
+func mergeContracts(dst, src *Contract) {
+	tag := func(cls []Clause, props []string) []Clause {
+		for i := range cls {
+			if cls[i].Props == nil {
+				cls[i].Props = props
+			}
+		}
+		return cls
+	}
+	dst.Ensures = tag(dst.Ensures, dst.Props)
+	dst.Asserts = tag(dst.Asserts, dst.Props)
+	dst.Ensures = append(dst.Ensures, tag(src.Ensures, src.Props)...)
+	dst.Asserts = append(dst.Asserts, tag(src.Asserts, src.Props)...)
+	dst.Requires = append(dst.Requires, src.Requires...)
+	dst.Honest = append(dst.Honest, src.Honest...)
+	dst.Modifies = append(dst.Modifies, src.Modifies...)
+	dst.Uses = append(dst.Uses, src.Uses...)
+	for k, v := range src.LoopInv {
+		dst.LoopInv[k] = append(dst.LoopInv[k], v...)
+	}
+	for k, v := range src.Flags {
+		if v {
+			dst.Flags[k] = true
+		}
+	}
+	for _, p := range src.Props {
+		if !contains(dst.Props, p) {
+			dst.Props = append(dst.Props, p)
+		}
+	}
+}
